@@ -274,11 +274,16 @@ type relayShape struct {
 }
 
 // an unmodified run is bounded generously (the bound only ends a run that already failed); an edited
-// run that stalls (a dropped frame leaves both ends reading) is cut short -- a run cut short counts
-// as a failed handshake, which is the safe direction for the oracle
-const relayEditTimeout = 600 * time.Millisecond
+// run that STALLS (a dropped frame leaves both ends reading) is recognised as an event and ended at
+// once (relayRunBound). The time bound is a backstop: a run it ends (timedOut) says nothing -- neither
+// "the tampering was rejected" nor "the edit was not applied" -- and is repeated on its own with
+// relayRetryTimeout; one that is late again is left out of the verdict and of the ratios, and counted.
+const relayRetryTimeout = 20 * time.Second
+const relayEditTimeout = 5 * time.Second
 
 type relayOut struct {
+	timedOut         bool // the run was ended by the harness's time bound, not by either endpoint
+	stalled          bool // every party was waiting for another (detected as an event): ended at once
 	hsOK, appOK      bool
 	resumed          bool // the client reports that it resumed a cached session
 	cMethod, sMethod string
@@ -294,6 +299,14 @@ func (o relayOut) applied() bool {
 }
 
 func relayRun(sh relayShape, cache *security.SessionCache, ed *relayEdit) (o relayOut) {
+	bound := hsHonestTimeout
+	if ed != nil {
+		bound = relayEditTimeout
+	}
+	return relayRunBound(sh, cache, ed, bound)
+}
+
+func relayRunBound(sh relayShape, cache *security.SessionCache, ed *relayEdit, bound time.Duration) (o relayOut) {
 	// the client's view of the server address is the server's real one (FS names the endpoint)
 	c1, r1 := bufpipe.Pair("10.0.0.1:1111", "10.0.0.2:9618")
 	r2, s1 := bufpipe.Pair("10.0.0.1:1111", "10.0.0.2:9618")
@@ -302,12 +315,39 @@ func relayRun(sh relayShape, cache *security.SessionCache, ed *relayEdit) (o rel
 	stop := false
 	go pump(r1, r2, 0, ed, st, &stop)
 	go pump(r2, r1, 1, ed, st, &stop)
-	bound := hsHonestTimeout
-	if ed != nil {
-		bound = relayEditTimeout
-	}
 	ctx, cancel := context.WithTimeout(context.Background(), bound)
 	defer cancel()
+	// An edit that leaves every party waiting for another (a dropped frame, a length field made
+	// larger) never resolves: that is detected as an EVENT -- both relay pumps and both endpoints
+	// parked in Read (an endpoint whose handshake already returned counts as parked) with nothing
+	// buffered and nothing written while we looked -- and the run is ended at once. The time bound
+	// is then only a backstop for a run that is slow, and can be generous.
+	var cliDone, srvDone, appPhase, stalled atomic.Bool
+	monDone := make(chan struct{})
+	defer close(monDone)
+	go func() {
+		tick := time.NewTicker(300 * time.Microsecond)
+		defer tick.Stop()
+		written := func() int { return c1.WrittenLen() + r1.WrittenLen() + r2.WrittenLen() + s1.WrittenLen() }
+		for {
+			select {
+			case <-monDone:
+				return
+			case <-tick.C:
+			}
+			n0 := written()
+			c1w, s1w := c1.ReadWaiting(), s1.ReadWaiting()
+			parked := (cliDone.Load() || c1w) && (srvDone.Load() || s1w) && !(cliDone.Load() && srvDone.Load())
+			if appPhase.Load() { // one goroutine drives both ends in turn: it is parked when either end is
+				parked = c1w || s1w
+			}
+			if parked && r1.ReadWaiting() && r2.ReadWaiting() && written() == n0 {
+				stalled.Store(true)
+				cancel()
+				return
+			}
+		}
+	}()
 	cst, sst := stream.NewStream(c1), stream.NewStream(s1)
 	sst.SetPeerAddr("10.0.0.1:1111")
 	var sneg *security.SecurityNegotiation
@@ -325,6 +365,7 @@ func relayRun(sh relayShape, cache *security.SessionCache, ed *relayEdit) (o rel
 			}
 		}()
 		sneg, serr = a.ServerHandshake(ctx)
+		srvDone.Store(true)
 		if serr != nil {
 			s1.Close()
 		}
@@ -341,11 +382,13 @@ func relayRun(sh relayShape, cache *security.SessionCache, ed *relayEdit) (o rel
 		}()
 		cneg, cerr = a.ClientHandshake(ctx)
 	}()
+	cliDone.Store(true)
 	if cerr != nil {
 		c1.Close()
 	}
 	wg.Wait()
 	o.hsOK = cerr == nil && serr == nil
+	o.timedOut = ctx.Err() != nil && !stalled.Load()
 	if o.hsOK {
 		o.resumed = a.WasSessionResumed()
 		if cneg != nil && cneg.Authentication {
@@ -354,6 +397,7 @@ func relayRun(sh relayShape, cache *security.SessionCache, ed *relayEdit) (o rel
 		if sneg != nil && sneg.Authentication {
 			o.sMethod = string(sneg.NegotiatedAuth)
 		}
+		appPhase.Store(true)
 		e1 := cst.SendMessage(ctx, []byte("c2s-app"))
 		m1, e2 := sst.ReceiveCompleteMessage(ctx)
 		ok1 := e1 == nil && e2 == nil && string(m1) == "c2s-app"
@@ -361,6 +405,10 @@ func relayRun(sh relayShape, cache *security.SessionCache, ed *relayEdit) (o rel
 		m2, e4 := cst.ReceiveCompleteMessage(ctx)
 		ok2 := e3 == nil && e4 == nil && string(m2) == "s2c-app"
 		o.appOK = ok1 || ok2
+	}
+	o.stalled = stalled.Load()
+	if !o.timedOut {
+		o.timedOut = ctx.Err() != nil && !o.stalled
 	}
 	c1.Close()
 	s1.Close()
@@ -422,7 +470,7 @@ func runRelay(c *Ctx) error {
 		return err
 	}
 	// part 2
-	work, err := os.MkdirTemp(fsWorkDir(c), "relay-")
+	work, err := os.MkdirTemp(fsWorkDir(c), scratchPrefix("relay"))
 	if err != nil {
 		return err
 	}
@@ -431,13 +479,12 @@ func runRelay(c *Ctx) error {
 	if err != nil {
 		return err
 	}
-	fsBefore := stallFSDirs()
 	defer func() {
-		for d := range stallFSDirs() {
-			if !fsBefore[d] {
-				_ = os.Remove(d)
-			}
+		// only the directories named on this engine's own connections (fs_own_dirs.go), never a glob of /tmp
+		if n := ownFS.cleanup(); n > 0 {
+			c.Res.Distribution["fs-dir-left-behind-removed"] += n
 		}
+		c.Res.Distribution["fs-dir-names-seen-on-own-wire"] = len(ownFS.all())
 	}()
 	obligation := func(label, what string) {
 		// a precondition of the engine's own coverage claim failed: reported as a broken
@@ -445,7 +492,7 @@ func runRelay(c *Ctx) error {
 		c.Res.Mismatches = append(c.Res.Mismatches, Mismatch{Label: "relay: " + label, Ops: []string{what}, Real: []string{"precondition failed"}, Model: []string{"precondition holds"}})
 	}
 	shapes := relayShapes(mat)
-	planned, skipped, notApplied := 0, 0, 0
+	planned, skipped, notApplied, lateTwice := 0, 0, 0, 0
 	for _, sh := range shapes {
 		sh := sh
 		security.ClearSessionCache()
@@ -472,6 +519,14 @@ func runRelay(c *Ctx) error {
 			continue
 		}
 		o := relayRun(sh, cache, nil)
+		if !o.hsOK || !o.appOK {
+			// an honest run is judged after it failed twice (the FS shape has its directory in the shared
+			// /tmp for the duration of the exchange; the bound is generous but it is a bound)
+			c.Count("honest-run-repeated:" + sh.name)
+			if prep() {
+				o = relayRun(sh, cache, nil)
+			}
+		}
 		if !o.hsOK || !o.appOK {
 			c.Violate(Violation{Property: "C04", Key: "C04:honest-relay-failed:" + sh.name, What: "an unmodified handshake through the relay failed", Ops: []string{"shape " + sh.name}, Expected: "success", Observed: fmt.Sprintf("hs=%v app=%v", o.hsOK, o.appOK)})
 			continue
@@ -522,7 +577,7 @@ func runRelay(c *Ctx) error {
 		}
 		// run the edits: fresh handshakes are independent of each other (own cache, own pipes) and run
 		// eight at a time; resumed ones share the process-wide cache and run one by one
-		type editRes struct{ ran, hs, app, applied bool }
+		type editRes struct{ ran, hs, app, applied, timedOut, stalled bool }
 		results := make([]editRes, len(edits))
 		if sh.resumed {
 			for i := range edits {
@@ -531,7 +586,7 @@ func runRelay(c *Ctx) error {
 				}
 				e := edits[i]
 				ro := relayRun(sh, cache, &e)
-				results[i] = editRes{true, ro.hsOK, ro.appOK, ro.applied()}
+				results[i] = editRes{true, ro.hsOK, ro.appOK, ro.applied(), ro.timedOut, ro.stalled}
 			}
 		} else {
 			sem := make(chan struct{}, 8)
@@ -544,10 +599,27 @@ func runRelay(c *Ctx) error {
 					defer func() { <-sem }()
 					e := edits[i]
 					ro := relayRun(sh, security.NewSessionCache(), &e)
-					results[i] = editRes{true, ro.hsOK, ro.appOK, ro.applied()}
+					results[i] = editRes{true, ro.hsOK, ro.appOK, ro.applied(), ro.timedOut, ro.stalled}
 				}(i)
 			}
 			wg.Wait()
+		}
+		// runs ended by the time bound: once more, one at a time, with a longer bound
+		for i := range edits {
+			if !results[i].ran || !results[i].timedOut {
+				continue
+			}
+			c.Count("edit-timed-out-repeated-alone:" + sh.name)
+			if sh.resumed && !prep() {
+				continue
+			}
+			e := edits[i]
+			rc := cache
+			if !sh.resumed {
+				rc = security.NewSessionCache()
+			}
+			ro := relayRunBound(sh, rc, &e, relayRetryTimeout)
+			results[i] = editRes{true, ro.hsOK, ro.appOK, ro.applied(), ro.timedOut, ro.stalled}
 		}
 		for i, ed := range edits {
 			planned++
@@ -557,6 +629,15 @@ func runRelay(c *Ctx) error {
 				continue
 			}
 			hs, app := results[i].hs, results[i].app
+			if results[i].stalled {
+				c.Count("edit-run-stalled-detected-as-event:" + sh.name)
+			}
+			if results[i].timedOut {
+				// late twice: no observation (not "rejected", not "not applied")
+				c.Count("edit-timed-out-twice-excluded:" + sh.name)
+				lateTwice++
+				continue
+			}
 			if !results[i].applied {
 				// the edited run's frame never came or was shorter than in the unmodified run (a random
 				// part of the handshake, e.g. the FS directory name, varies in length): nothing was
@@ -579,7 +660,10 @@ func runRelay(c *Ctx) error {
 	c.Res.Distribution["edits-planned"] = planned
 	c.Res.Distribution["edits-skipped"] = skipped
 	c.Res.Distribution["edits-not-applied"] = notApplied
-	if notApplied*20 > planned {
+	c.Res.Distribution["edits-timed-out-twice"] = lateTwice
+	c.Planned("relay-edits", planned)
+	c.Ran("relay-edits", planned-skipped-lateTwice)
+	if notApplied*20 > planned-lateTwice {
 		obligation("not-applied", fmt.Sprintf("%d of %d planned edits never changed a byte in transit", notApplied, planned))
 	}
 	if skipped*50 > planned {
